@@ -75,12 +75,16 @@ def run_syspath(case):
         ml._known_dirs = GatedSet()
         ml._sys_path_lock = CtlLock(ctl)
 
+        returns = []
+
         def worker(t):
             ctl.local.t = t
             try:
                 for nm in progs[t]:
                     p = d / nm
                     ml.add_sys_path(p if case.get('as_path') else str(p))
+                    # what this caller finds right after its call returned (ungated read)
+                    returns.append([t, nm, list.__contains__(sys.path, str(p))])
             except Abort:
                 pass
             finally:
@@ -105,4 +109,4 @@ def run_syspath(case):
         ml._sys_path_lock = orig_lock
         shutil.rmtree(d, ignore_errors=True)
     return {'events': ctl.events, 'status': status, 'unfinished': unfinished, 'appended': appended,
-            'counts': counts, 'anomalies': ctl.anomalies}
+            'counts': counts, 'returns': returns, 'anomalies': ctl.anomalies}
